@@ -56,6 +56,56 @@ func prodCampaign(rc *RunCtx, chains, steps int) {
 	ProbeHistory(rc, rc.Pick(240, 900), rc.Shard%2 == 1)
 }
 
+// thresholdAboveSet: configurations in which the signature threshold exceeds the number of enabled attesters
+// (a genesis file may say so; it also happens while attesters are enabled one by one under a genesis threshold
+// above 1). Nothing can be validly attested then: receives and both replacements must fail even when every enabled
+// attester signed.
+func thresholdAboveSet(rc *RunCtx) {
+	ci := 0
+	for n := 0; n <= 3; n++ {
+		for over := 1; over <= 2; over++ {
+			ci++
+			if ci%rc.NShards != rc.Shard {
+				continue
+			}
+			e, err := NewProdEngine(rc, false, nil, func(gs *ct.GenesisState, cfg *chain.Config) {
+				gs.AttesterList = nil
+				for i := 0; i < n; i++ {
+					gs.AttesterList = append(gs.AttesterList, ct.Attester{Attester: AttesterPool[i].Spell(i)})
+				}
+				gs.SignatureThreshold = &ct.SignatureThreshold{Amount: uint32(n + over)}
+			})
+			if err != nil {
+				rc.Cov.Inconclusive("threshold-above-set chain: " + err.Error())
+				continue
+			}
+			g := NewGen(e)
+			p := &ProdGen{E: e, G: g}
+			nonce := uint64(9_000_000 + ci*1000)
+			try := func(phase string) {
+				e.Exec(Tx{Msgs: msgs1(p.ValidSend(false)), Note: "threshold above set: original send"})
+				e.Exec(Tx{Msgs: msgs1(p.ValidDeposit(false, 0)), Note: "threshold above set: original deposit"})
+				for _, cls := range []string{"own-message", "own-deposit"} {
+					if m := p.Replacement(cls); m != nil {
+						r := e.Exec(Tx{Msgs: msgs1(m), Note: "threshold above set: " + cls + " attested by every enabled attester"})
+						rc.Cov.Cell("threshold_above_set", fmt.Sprintf("%s/n=%d/t=%d/%s/%s", phase, len(e.M.Attesters), e.M.Threshold, cls, okWord(r.OK)))
+					}
+				}
+				nonce++
+				raw := StdInbound(nonce, 1, big.NewInt(5)).Bytes()
+				r := e.Exec(Tx{Msgs: msgs1(&ct.MsgReceiveMessage{From: Acct(UserIx), Message: raw, Attestation: e.Attest(raw, 0)}), Note: "threshold above set: receive attested by every enabled attester"})
+				rc.Cov.Cell("threshold_above_set", fmt.Sprintf("%s/n=%d/t=%d/receive/%s", phase, len(e.M.Attesters), e.M.Threshold, okWord(r.OK)))
+			}
+			try("genesis")
+			// attesters arrive one by one; the threshold is reached (and the flows start working) only at the end
+			for i := n; i < n+over+1 && i < len(AttesterPool); i++ {
+				e.Exec(Tx{Msgs: msgs1(&ct.MsgEnableAttester{From: e.M.AM, Attester: AttesterPool[i].Spell(i % 4)}), Note: "threshold above set: enable one more attester"})
+				try(fmt.Sprintf("after-enable-%d", i-n+1))
+			}
+		}
+	}
+}
+
 func prodShards(t string) int { return map[string]int{"quick": 4, "thorough": 16}[t] }
 
 func cellSum(m map[string]int, pred func(string) bool) int {
@@ -125,7 +175,10 @@ func init() {
 		ID: "C09", Level: "exploration",
 		Rule:   "producer histories with replacements of 13 original classes (own / someone else's / unattested / attested by a since-rotated set / foreign-domain / forged module message / module message through replace-message / user 132-byte message through replace-deposit / odd new caller and recipient shapes) under all flag states and attester rotations; oracles: outcome per the reference model, decoded replacement vs decoded original restricted to the allowed fields, raw dump of all four stores unchanged, zero ledger requests, counter untouched. distinct = (model state, tx shape, outcome).",
 		Shards: prodShards,
-		Run:    func(rc *RunCtx) { prodCampaign(rc, rc.Pick(4, 10), rc.Pick(1200, 3000)) },
+		Run: func(rc *RunCtx) {
+			prodCampaign(rc, rc.Pick(4, 10), rc.Pick(1200, 3000))
+			thresholdAboveSet(rc)
+		},
 		Floors: func(c *Cov, tier string) []string {
 			var miss []string
 			ok := 0
